@@ -376,3 +376,18 @@ def roots_at(fs, body, site, via, op, through=DEFAULT_THROUGH):
     if via is not None:
         rs = lift_roots(body, via[0], via[1], rs, through=through)
     return rs
+
+
+def resolve_upvar(parent, closure, name, through=DEFAULT_THROUGH):
+    """roots (in `parent`) of the value a closure captured under `name`: looks up the statement of `parent` that builds the
+    closure and follows the matching captured field"""
+    caps = closure.j.get('captures', [])
+    if name not in caps:
+        return []
+    out = []
+    for i, k, st in parent.stmts():
+        if st['k'] == 'assign' and st['rv']['k'] == 'agg' and st['rv'].get('closure') == closure.path:
+            ix = caps.index(name)
+            if ix < len(st['rv']['fields']):
+                out += provenance(parent, st['rv']['fields'][ix], i, k, through=through)
+    return out
